@@ -258,7 +258,24 @@ func RunOne(cfg simrt.Config, o world.Opts) *world.Result {
 	var host hostResult
 	var before map[string]string
 
+	var conformDesc []string
+	isConform := false
 	s.Run("host", func() {
+		if o.Prop == "C16" && o.Cell < 0 {
+			k := 0
+			if o.Kind == "conform" {
+				k = simrt.Pin("c16.kind", 8, 7)
+			} else {
+				k = simrt.Choice("c16.kind", 8)
+			}
+			if k == 7 {
+				isConform = true
+				runConform(res, s, o, &conformDesc)
+				return
+			}
+		} else if o.Prop == "C16" {
+			simrt.Pin("c16.kind", 8, 0)
+		}
 		sc = genScenario(o)
 		s.SetStrategy(sc.Strat, sc.SwitchP, 400)
 		s.Preempt = sc.Preempt
@@ -322,11 +339,40 @@ func RunOne(cfg simrt.Config, o world.Opts) *world.Result {
 	})
 
 	res.FromSim(s)
+	if isConform {
+		if s.Aborted != "" {
+			res.Failf("C16/liveness-"+s.Aborted, "conforming-plugin run abandoned (%s) after %d steps", s.Aborted, s.Steps)
+		}
+		for _, t := range s.Tasks() {
+			if t.Panic != "" {
+				res.Failf("C16/task-panic", "task %s panicked: %s", t.Name, first(t.Panic, 600))
+			}
+		}
+		h := world.NewHasher()
+		world.EventsHash(h, s, env.Root)
+		for _, f := range res.Failures {
+			h.Str(f.Check)
+		}
+		res.Hash = h.Sum()
+		k := world.NewHasher()
+		for _, c := range res.Choices {
+			k.Int(int64(c))
+		}
+		res.Key = k.Sum()
+		if o.Trace {
+			res.Trace = append(conformDesc, world.TraceOf(s, env.Root)...)
+			res.Sample = map[string]interface{}{"scenario": conformDesc, "steps": s.Steps}
+		}
+		return res
+	}
 	after := world.Snapshot(env.Root)
 	if o.Prop == "C17" {
 		checkC17(res, s, sc, logs, &host, env, before, after)
 	} else {
 		checkC16(res, s, sc, logs, &host, env)
+		if s.Aborted == "" && host.Panic == "" && sc != nil && sc.FailModule < 0 {
+			checkFramesIntact(res, sc, logs, &host, env, after)
+		}
 	}
 
 	// determinism hash and distinctness key
